@@ -37,3 +37,6 @@ mod prefix_optimization;
 
 #[cfg(test)]
 mod tests;
+
+#[cfg(mwlon_quantile_compression_verif)]
+pub mod verif;
